@@ -5,6 +5,8 @@
 //!        out: `ok ids <canonically renamed ids>`  (coordinates pairwise distinct on every axis)
 //!             `ok loads <sorted part loads>`      (coordinate ties, uniform weights)
 //!             `ok ties`                           (coordinate ties, other weights: oracle only)
+//!   `mjs <scale code> <D> <threads> <parts> <maxiter> <n> <w…> <coords>`   weights times a scale (see SCALES)
+//!   `mjl <D> <threads> <parts> <maxiter> <n> <cshape> <wshape> <seed> <cmp>`  large inputs generated from a seed
 //!   `split <threads> <den> <k> <m…> <nw> <w…> <np> <perm…>`   hook compute_split_positions,
 //!        modifiers m_i/den;  out: `ok pos <positions>`
 //!   `scheme <parts> <maxiter>`                                hook partition_scheme; out: `ok <tree>`
@@ -938,6 +940,7 @@ pub fn run_op(ctx: &mut Ctx, op: &str) {
     let r = match it.next() {
         Some("mj") => op_mj(ctx, op, &mut it),
         Some("mjl") => op_mjl(ctx, op, &mut it),
+        Some("mjs") => op_mjs(ctx, op, &mut it),
         Some("split") => op_split(ctx, op, &mut it),
         Some("scheme") => op_scheme(ctx, op, &mut it),
         Some("splitmany") => op_splitmany(ctx, op, &mut it),
@@ -1218,6 +1221,184 @@ fn gen_coords_distinct(ctx: &mut Ctx, n: usize, dim: usize) -> (Vec<i64>, &'stat
     (c, "distinct")
 }
 
+
+// ------------------------------------------------------------------ weight-scale stream
+
+/// scale codes of the `mjs` op: 0..6 decimal (not exact), 7..9 exact powers of two
+const SCALES: [(f64, &str); 10] = [
+    (1e-30, "1e-30"),
+    (1e-20, "1e-20"),
+    (1e-17, "1e-17"),
+    (1e-15, "1e-15"),
+    (1e-10, "1e-10"),
+    (1e10, "1e10"),
+    (1e30, "1e30"),
+    (8.673617379884035e-19, "2^-60"),
+    (9.313225746154785e-10, "2^-30"),
+    (1073741824.0, "2^30"),
+];
+
+fn run_scaled<const D: usize>(
+    threads: usize,
+    parts: usize,
+    maxiter: usize,
+    ws: &[u64],
+    scale: f64,
+    fcoords: &[f64],
+) -> Caught<Vec<usize>> {
+    let points = points_of::<D>(fcoords);
+    let weights: Vec<f64> = ws.iter().map(|&w| w as f64 * scale).collect();
+    run_fresh::<D>(threads, parts, maxiter, &weights, &points)
+}
+
+/// `mjs <scale code> <D> <threads> <parts> <maxiter> <n> <w…> <coords…>`: the weights handed to
+/// the implementation are `w * scale`. The property is scale-free: the oracle (ids, jagged
+/// hierarchy, balance bound on the integer weights) applies unchanged; for an exact power of
+/// two every float operation of the code scales exactly, so the partition must be IDENTICAL
+/// to the one for the unscaled weights (and to the model's prediction).
+fn op_mjs(ctx: &mut Ctx, op: &str, it: &mut std::str::SplitWhitespace) -> Option<()> {
+    let code: usize = it.next()?.parse().ok()?;
+    let dim: usize = it.next()?.parse().ok()?;
+    let threads: usize = it.next()?.parse().ok()?;
+    let parts: usize = it.next()?.parse().ok()?;
+    let maxiter: usize = it.next()?.parse().ok()?;
+    let n: usize = it.next()?.parse().ok()?;
+    if code >= SCALES.len() || !(dim == 2 || dim == 3) || threads == 0 || threads > 64 {
+        return None;
+    }
+    let ws: Vec<u64> = nums(it, n)?;
+    let coords: Vec<i64> = nums(it, n * dim)?;
+    if it.next().is_some() {
+        return None;
+    }
+    let (scale, name) = SCALES[code];
+    debug_assert!(code < 7 || (scale.to_bits() & ((1u64 << 52) - 1)) == 0);
+    let exact = code >= 7;
+    let fcoords: Vec<f64> = coords.iter().map(|&c| c as f64).collect();
+    let distinct = (0..dim).all(|c| pairwise_distinct((0..n).map(|p| coords[p * dim + c]).collect()));
+    let uniform = ws.windows(2).all(|w| w[0] == w[1]);
+    let positive = ws.iter().all(|&w| w > 0);
+    let in_quant = positive && n >= 1 && (1..=n).contains(&parts) && (1..=4).contains(&maxiter);
+    ctx.count(if in_quant { "mj_in_quantifier" } else { "mj_outside_quantifier" });
+    ctx.count(&format!("scale:{}", name));
+    if !positive {
+        ctx.count(if ws.iter().all(|&w| w == 0) { "scale:all_zero_weights" } else { "scale:some_zero_weights" });
+    }
+    let run = |sc: f64| {
+        if dim == 2 {
+            run_scaled::<2>(threads, parts, maxiter, &ws, sc, &fcoords)
+        } else {
+            run_scaled::<3>(threads, parts, maxiter, &ws, sc, &fcoords)
+        }
+    };
+    let mut verdicts: Vec<(&'static str, String)> = vec![];
+    let out = match run(scale) {
+        Caught::Ok(ids) => {
+            oracle_mj(ctx, dim, &coords, &ws, &ids, parts, maxiter, in_quant, &mut verdicts);
+            // against the unscaled run
+            match run(1.0) {
+                Caught::Ok(ids1) => {
+                    let same = if distinct {
+                        Some(canon(&ids) == canon(&ids1))
+                    } else if uniform {
+                        Some(sorted_loads(&ids, &ws, parts) == sorted_loads(&ids1, &ws, parts))
+                    } else {
+                        None
+                    };
+                    match (exact, same) {
+                        (true, Some(false)) => verdicts.push((
+                            "mj-scale-variant",
+                            format!("weights times {} (an exact power of two) give another partition than the unscaled weights", name),
+                        )),
+                        (true, Some(true)) => ctx.count("scale:pow2_identical_to_unscaled"),
+                        (false, Some(true)) => ctx.count("scale:decimal_same_as_unscaled"),
+                        (false, Some(false)) => ctx.count("scale:decimal_differs_from_unscaled"),
+                        (_, None) => ctx.count("scale:ties_not_compared"),
+                    }
+                }
+                Caught::Panic(m) => verdicts.push(("panic", format!("unscaled run: {} [{}]", m, panic_sig(&m)))),
+                Caught::Hang => verdicts.push(("hang", "unscaled run".into())),
+            }
+            if distinct {
+                tagged("ok ids", &canon(&ids))
+            } else if uniform {
+                tagged("ok loads", &sorted_loads(&ids, &ws, parts))
+            } else {
+                "ok ties".to_string()
+            }
+        }
+        Caught::Panic(m) => {
+            if parts == 0 {
+                ctx.count("mj_expected_panic_parts0");
+            } else {
+                verdicts.push(("panic", format!("{} [{}]", m, panic_sig(&m))));
+            }
+            format!("panic {}", m)
+        }
+        Caught::Hang => {
+            verdicts.push(("hang", "watchdog".into()));
+            "hang".into()
+        }
+    };
+    let idx = ctx.record(op.to_string(), out, in_quant && n >= 2 && parts >= 2);
+    for (sig, what) in verdicts {
+        ctx.fail(idx, sig, what);
+    }
+    Some(())
+}
+
+/// WEIGHT-SCALE stream: ordinary inputs with the weights multiplied by 1e-30 … 1e30 and by
+/// 2^-60, 2^-30, 2^30 (defect N7: the absolute epsilon of `Ulps::default()` swallowed every
+/// difference for tiny weight units; fixed by f7a6b90).
+fn scale_stream(ctx: &mut Ctx) {
+    for _ in 0..ctx.budget(1500, 15000) {
+        let n = gen_n(ctx).min(150);
+        let dim = 2 + ctx.rng.usize(2);
+        let (coords, _) = gen_coords(ctx, n, dim);
+        let (mut ws, _) = gen_weights(ctx, n);
+        match ctx.rng.usize(25) {
+            0 => {
+                for w in ws.iter_mut() {
+                    *w = 0;
+                }
+            }
+            1 | 2 => {
+                for w in ws.iter_mut() {
+                    if ctx.rng.chance(1, 3) {
+                        *w = 0;
+                    }
+                }
+            }
+            _ => {}
+        }
+        let parts = match ctx.rng.usize(8) {
+            0 => n + 1 + ctx.rng.usize(3),
+            1 => n,
+            2 => 1 + ctx.rng.usize(n.min(8)),
+            _ => 1 + ctx.rng.usize(n),
+        };
+        let maxiter = 1 + ctx.rng.usize(4);
+        let threads = *ctx.rng.pick(&THREADS);
+        let code = ctx.rng.usize(SCALES.len());
+        let op = fmt_mj(dim, threads, parts, maxiter, &ws, &coords);
+        run_op(ctx, &format!("mjs {} {}", code, &op[3..]));
+    }
+    // the N7 shape at every scale: many equal weights, few parts
+    for code in 0..SCALES.len() {
+        for &(n, parts) in &[(100usize, 4usize), (64, 8), (30, 3)] {
+            let coords: Vec<i64> = (0..n as i64).flat_map(|i| [i, (i * 7) % n as i64 + 1000 * (i % 7)]).collect();
+            let op = fmt_mj(2, 1, parts, 2, &vec![1u64; n], &coords);
+            run_op(ctx, &format!("mjs {} {}", code, &op[3..]));
+        }
+    }
+    ctx.notes.push(
+        "weight-scale stream: ordinary inputs with weights times 1e-30, 1e-20, 1e-17, 1e-15, 1e-10, 1e10, 1e30 (oracle; \
+         balance evaluated on the integer weights) and times 2^-60, 2^-30, 2^30 (partition must equal the unscaled run \
+         and the model's prediction)"
+            .into(),
+    );
+}
+
 pub fn generate(ctx: &mut Ctx) {
     // ---- exhaustive small sub-space: fixed pairwise-distinct layout, all weight vectors over {1,2,5}
     let nmax = if ctx.quick() { 5 } else { 6 };
@@ -1456,6 +1637,7 @@ pub fn generate(ctx: &mut Ctx) {
         let threads = *ctx.rng.pick(&THREADS);
         run_op(ctx, &format!("axissort {} {} {} {} {}", dim, coord, threads, n, join(&coords)).trim_end().to_string());
     }
+    scale_stream(ctx);
     large_stream(ctx);
 }
 
